@@ -149,3 +149,73 @@ Definition sstep (y : sys) (l : lbl) : option sys :=
 Inductive sreach : sys -> Prop :=
 | sreach0 : sreach sys0
 | sreachS y l y' : sreach y -> sstep y l = Some y' -> sreach y'.
+
+(* =====================================================================================
+   Method calls at ATOMIC-operation granularity, for two calls racing on two threads under an explicit
+   schedule (stream op RACE: the harness runs the REAL methods on two threads, one atomic operation of
+   `credit` / `state` at a time, through the cfg(gmquic_verif) instrumented atomics of aa.rs).
+   One `mstep` = one atomic operation together with the thread-local code that follows it
+   (`tx_waker.wake_by` is not an atomic of aa.rs and runs with the operation before it).
+   ===================================================================================== *)
+
+Inductive mcall := CRcvd (n : N) | CBalance | CSent (n : N) | CGrant | CAbort | CNop.
+Inductive mres := RUnit | RBal (b : bres).
+
+Inductive mpc :=
+| PStart (c : mcall)          (* the first atomic operation of the call is next *)
+| PRcvdAdd (n : N)            (* on_rcvd: state was NORMAL; `credit.fetch_add(n*3)` + wake_by is next *)
+| PBalCredit                  (* balance: state was NORMAL; load of credit is next *)
+| PBalReload                  (* balance: credit was 0; second load of state is next *)
+| PSentDebit (n : N)          (* on_sent: state was NORMAL; the saturating `credit.fetch_update` is next *)
+| PDone (r : mres).
+
+Definition mstart (c : mcall) : mpc := match c with CNop => PDone RUnit | _ => PStart c end.
+
+Definition mstep (a : aa) (p : mpc) : aa * mpc :=
+  match p with
+  | PStart (CRcvd n) => if st a =? 0 then (a, PRcvdAdd n) else (a, PDone RUnit)
+  | PRcvdAdd n => (wake_credit (fetch_add a ((n * FACTOR) mod W)), PDone RUnit)
+  | PStart CBalance =>
+      if st a =? 1 then (a, PDone (RBal (BSome MAXU)))
+      else if st a =? 2 then (a, PDone (RBal BNone))
+      else if st a =? 0 then (a, PBalCredit)
+      else (a, PDone (RBal BPanic))
+  | PBalCredit => if credit a =? 0 then (a, PBalReload) else (a, PDone (RBal (BSome (credit a))))
+  | PBalReload =>
+      if st a =? 0 then (a, PDone (RBal BErr))
+      else (wake_credit a, PDone (RBal (if st a =? 1 then BSome MAXU else BNone)))
+  | PStart (CSent n) => if st a =? 0 then (a, PSentDebit n) else (a, PDone RUnit)
+  | PSentDebit n => (debit a n, PDone RUnit)
+  | PStart CGrant => (if st a =? 0 then wake_credit (set_st a 1) else a, PDone RUnit)   (* compare_exchange *)
+  | PStart CAbort => (if st a =? 0 then wake_credit (set_st a 2) else a, PDone RUnit)
+  | PStart CNop => (a, PDone RUnit)
+  | PDone r => (a, PDone r)
+  end.
+
+Definition pdone (p : mpc) : bool := match p with PDone _ => true | _ => false end.
+
+(* a call running alone *)
+Definition mrun_alone (a : aa) (c : mcall) : aa * mpc :=
+  let '(a1, p1) := mstep a (mstart c) in
+  let '(a2, p2) := mstep a1 p1 in
+  mstep a2 p2.
+
+(* two calls A and B under a schedule: each bit names the thread that performs its next atomic operation
+   (false = A, true = B; a finished thread hands the turn to the other; after the schedule: A first).
+   na / nb count the atomic operations each thread performed. *)
+Fixpoint race (fuel : nat) (a : aa) (pa pb : mpc) (na nb : N) (sched : list bool) : aa * mpc * mpc * N * N :=
+  match fuel with
+  | O => (a, pa, pb, na, nb)
+  | S f =>
+      if pdone pa && pdone pb then (a, pa, pb, na, nb)
+      else
+        let pick := match sched with b :: _ => b | [] => false end in
+        let runb := if pick then negb (pdone pb) else pdone pa in
+        if runb then let '(a', pb') := mstep a pb in race f a' pa pb' na (nb + 1) (tl sched)
+        else let '(a', pa') := mstep a pa in race f a' pa' pb (na + 1) nb (tl sched)
+  end.
+
+Definition RACE_FUEL : nat := 8.      (* each call performs at most 3 atomic operations *)
+
+Definition race_calls (a : aa) (ca cb : mcall) (sched : list bool) : aa * mpc * mpc * N * N :=
+  race RACE_FUEL a (mstart ca) (mstart cb) 0 0 sched.
